@@ -596,12 +596,13 @@ __visible_default __noreturn void pthread_exit(void *retval)
 		mcount_exit_filter_record(mtdp, rstack, NULL);
 
 		/*
-		 * it won't return to the caller ("noreturn"),
-		 * do not try to restore the address..
+		 * it won't return to the caller ("noreturn"), but the forced
+		 * unwinding walks through every return address including this
+		 * one: restore them all.  Then forget the frames: none of them
+		 * returns and the stack is reused before mtd_dtor() runs.
 		 */
-		mtdp->idx--;
-
 		mcount_rstack_restore(mtdp);
+		mtdp->idx = 0;
 	}
 
 	if (!check_thread_data(mtdp))
